@@ -417,6 +417,19 @@ func handleDownload(c *Client, r *Response) (err error) {
 	if r.Response == nil || !r.Request.isSaveResponse {
 		return nil
 	}
+	if (c.digestAuth || r.Request.digestAuth) && isDigestChallenge(r.Response) {
+		// not the response the caller asked to save: the digest middleware answers the
+		// challenge and saves the final response
+		return nil
+	}
+	return saveResponse(c, r)
+}
+
+// saveResponse writes the response body to the output set by SetOutput / SetOutputFile.
+func saveResponse(c *Client, r *Response) (err error) {
+	if r.Response == nil || !r.Request.isSaveResponse {
+		return nil
+	}
 	var body io.ReadCloser
 
 	if r.body != nil { // already read
